@@ -3,6 +3,7 @@
 #![allow(clippy::all)]
 #![allow(dead_code)]
 
+mod alloc_probe;
 mod checks;
 mod framework;
 mod rng;
